@@ -16,6 +16,7 @@ use crate::*;
 mod arith;
 mod tables;
 mod pollstep;
+mod pollstep8;
 mod topics;
 
 /// poll a future that can never be Pending (reader is `&[u8]`): one poll, by hand (no block_on: Kani ICE)
